@@ -62,6 +62,9 @@ func (env *SpecEnv) lookup(name string) *Val {
 		return tv(cnst("ninf", SReal), nil)
 	case "eps":
 		return tv(cnst("eps", SReal), nil)
+	case "emptyset":
+		st := arraySort(SInt, SBool)
+		return tv(&Term{Op: "(as const " + st.String() + ")", Args: []*Term{tFalse}, S: st}, nil)
 	}
 	if strings.HasPrefix(name, "$") {
 		return &Val{T: realLit("0"), Mag: -1}
@@ -232,9 +235,13 @@ func (w *World) specField(base *Val, name string, e *SExpr) *Val {
 						stt := curNamed.Underlying().(*types.Struct)
 						f := stt.Field(idx)
 						if k == len(path)-1 {
+							if f.Embedded() && isStructNamed(f.Type()) {
+								return tv(embRefTerm(cur, curNamed, f), types.NewPointer(f.Type()))
+							}
 							return tv(tSelect(w.heapField(curNamed, f), cur), f.Type())
 						}
 						if f.Embedded() && isStructNamed(f.Type()) {
+							cur = embRefTerm(cur, curNamed, f)
 							curNamed = f.Type().(*types.Named)
 							continue
 						}
@@ -351,6 +358,19 @@ func (w *World) trSpecCall(e *SExpr, env *SpecEnv) *Val {
 		i := w.trSpec(args[1], env)
 		v := w.trSpec(args[2], env)
 		return tv(tStore(a.T, i.T, coerceTo(v, a.T.S.Elem)), a.GoT)
+	case "slice":
+		// slice(s, lo, hi) = s[lo:hi]
+		a := w.trSpec(args[0], env)
+		lo := w.trSpec(args[1], env)
+		hi := w.trSpec(args[2], env)
+		return tv(tMkDT(a.T.S, tField(a.T, "arr"), mk("+", SInt, tField(a.T, "off"), lo.T), mk("-", SInt, hi.T, lo.T)), a.GoT)
+	case "unboxBytes":
+		a := w.trSpec(args[0], env)
+		bs := w.Reg.slice(SInt)
+		return tv(mk("unbox_"+mangle(bs.String()), bs, a.T), types.NewSlice(types.Typ[types.Uint8]))
+	case "isBytes":
+		a := w.trSpec(args[0], env)
+		return tv(tAnd(tNot(tEq(a.T, intLit(0))), tEq(dynType(a.T), w.typeTag(types.NewSlice(types.Typ[types.Uint8])))), nil)
 	case "dyn":
 		a := w.trSpec(args[0], env)
 		return tv(dynType(a.T), nil)
@@ -421,6 +441,9 @@ type SpecDef struct {
 }
 
 func (w *World) specDef(sf *SpecFunc) *SpecDef {
+	saved := bvCounter
+	bvCounter = 0
+	defer func() { bvCounter = saved }()
 	d := &SpecDef{SF: sf}
 	rs, _ := w.resolveSpecType(sf.Pkg, sf.Ret)
 	d.Ret = rs
